@@ -80,6 +80,7 @@ def gen(rng, tier, idx):
             name += r.choice([".1", ".x.y", ".0.0"])
         procs = []
         used_p = set()
+        used_t = set()      # a TID names a thread of the node: unique within the loom (finding F30)
         for _ in range(r.randint(1, 3)):
             pid += 1 + r.below(3)
             thispid = pid
@@ -95,11 +96,12 @@ def gen(rng, tier, idx):
                 tid += 1 + r.below(4)
                 t_ = tid
                 if prefixy and r.chance(70):
-                    cand = [x for x in pool_t if x not in ths]
+                    cand = [x for x in pool_t if x not in ths and x not in used_t]
                     if cand:
                         t_ = r.choice(cand)
-                if t_ not in ths:
+                if t_ not in ths and t_ not in used_t:
                     ths.append(t_)
+                    used_t.add(t_)
             procs.append({"pid": thispid, "threads": ths})
         looms.append({"name": name, "host": host, "procs": procs})
     if with_ranks:
